@@ -13,58 +13,58 @@ variable {K : Type} [Field K] [LinearOrder K] [IsStrictOrderedRing K]
 
 /-- Line.area -/
 
-def line_area_v (p0x p0y p1x p1y : K) : K :=
+@[gen_def] def line_area_v (p0x p0y p1x p1y : K) : K :=
   ((((1 : K) / 2) * (p1x - p0x)) * (p0y + p1y))
 
-def line_area (p0x p0y p1x p1y : K) : List K :=
+@[gen_def] def line_area (p0x p0y p1x p1y : K) : List K :=
   [line_area_v p0x p0y p1x p1y]
 
 
 /-- QuadraticBezier.area -/
 
-def quad_area_v (p0x p0y p1x p1y p2x p2y : K) : K :=
+@[gen_def] def quad_area_v (p0x p0y p1x p1y p2x p2y : K) : K :=
   ((((((2 : K) * ((((p1x * p0y) - (p0x * p1y)) - (p1x * p2y)) + (p2x * p1y))) + ((3 : K) * ((p2x * p2y) - (p0x * p0y)))) + (p2x * p0y)) - (p0x * p2y)) / (6 : K))
 
-def quad_area (p0x p0y p1x p1y p2x p2y : K) : List K :=
+@[gen_def] def quad_area (p0x p0y p1x p1y p2x p2y : K) : List K :=
   [quad_area_v p0x p0y p1x p1y p2x p2y]
 
 
 /-- CubicBezier.area -/
 
-def cubic_area_v (p0x p0y p1x p1y p2x p2y p3x p3y : K) : K :=
+@[gen_def] def cubic_area_v (p0x p0y p1x p1y p2x p2y p3x p3y : K) : K :=
   (((((((10 : K) * ((p3x * p3y) - (p0x * p0y))) + ((6 : K) * ((((p1x * p0y) - (p0x * p1y)) + (p3x * p2y)) - (p2x * p3y)))) + ((3 : K) * ((((((p2x * p0y) - (p0x * p2y)) + (p2x * p1y)) - (p1x * p2y)) + (p3x * p1y)) - (p1x * p3y)))) + (p3x * p0y)) - (p0x * p3y)) / (20 : K))
 
-def cubic_area (p0x p0y p1x p1y p2x p2y p3x p3y : K) : List K :=
+@[gen_def] def cubic_area (p0x p0y p1x p1y p2x p2y p3x p3y : K) : List K :=
   [cubic_area_v p0x p0y p1x p1y p2x p2y p3x p3y]
 
 
 /-- QuadraticBezier.toCubicBezier -/
 
-def quad_toCubicBezier_c0x (p0x p0y p1x p1y p2x p2y : K) : K :=
+@[gen_def] def quad_toCubicBezier_c0x (p0x p0y p1x p1y p2x p2y : K) : K :=
   p0x
 
-def quad_toCubicBezier_c0y (p0x p0y p1x p1y p2x p2y : K) : K :=
+@[gen_def] def quad_toCubicBezier_c0y (p0x p0y p1x p1y p2x p2y : K) : K :=
   p0y
 
-def quad_toCubicBezier_c1x (p0x p0y p1x p1y p2x p2y : K) : K :=
+@[gen_def] def quad_toCubicBezier_c1x (p0x p0y p1x p1y p2x p2y : K) : K :=
   ((p0x * ((1 : K) / 3)) + (p1x * ((2 : K) / 3)))
 
-def quad_toCubicBezier_c1y (p0x p0y p1x p1y p2x p2y : K) : K :=
+@[gen_def] def quad_toCubicBezier_c1y (p0x p0y p1x p1y p2x p2y : K) : K :=
   ((p0y * ((1 : K) / 3)) + (p1y * ((2 : K) / 3)))
 
-def quad_toCubicBezier_c2x (p0x p0y p1x p1y p2x p2y : K) : K :=
+@[gen_def] def quad_toCubicBezier_c2x (p0x p0y p1x p1y p2x p2y : K) : K :=
   ((p1x * ((2 : K) / 3)) + (p2x * ((1 : K) / 3)))
 
-def quad_toCubicBezier_c2y (p0x p0y p1x p1y p2x p2y : K) : K :=
+@[gen_def] def quad_toCubicBezier_c2y (p0x p0y p1x p1y p2x p2y : K) : K :=
   ((p1y * ((2 : K) / 3)) + (p2y * ((1 : K) / 3)))
 
-def quad_toCubicBezier_c3x (p0x p0y p1x p1y p2x p2y : K) : K :=
+@[gen_def] def quad_toCubicBezier_c3x (p0x p0y p1x p1y p2x p2y : K) : K :=
   p2x
 
-def quad_toCubicBezier_c3y (p0x p0y p1x p1y p2x p2y : K) : K :=
+@[gen_def] def quad_toCubicBezier_c3y (p0x p0y p1x p1y p2x p2y : K) : K :=
   p2y
 
-def quad_toCubicBezier (p0x p0y p1x p1y p2x p2y : K) : List K :=
+@[gen_def] def quad_toCubicBezier (p0x p0y p1x p1y p2x p2y : K) : List K :=
   [quad_toCubicBezier_c0x p0x p0y p1x p1y p2x p2y, quad_toCubicBezier_c0y p0x p0y p1x p1y p2x p2y, quad_toCubicBezier_c1x p0x p0y p1x p1y p2x p2y, quad_toCubicBezier_c1y p0x p0y p1x p1y p2x p2y, quad_toCubicBezier_c2x p0x p0y p1x p1y p2x p2y, quad_toCubicBezier_c2y p0x p0y p1x p1y p2x p2y, quad_toCubicBezier_c3x p0x p0y p1x p1y p2x p2y, quad_toCubicBezier_c3y p0x p0y p1x p1y p2x p2y]
 
 
